@@ -75,6 +75,10 @@ def run(v, tier, seed, name="replay"):
             if l.split()[0] in ("local", "step", "steps", "crash", "recover") and rng.random() < 0.3:
                 out.append("rand")
         return out
+    # ModelChecker::new + one exploration in the middle of a simulation, with events pending at several nodes at the hand-over:
+    # the numbering of the events taken over (hence the order of exploration, the traces, the collected states) is determined
+    from . import snap_suite
+    sim_scen += [(f"sn{i}", [l for l in snap_suite.gen_snapshot_scenario(rng, walk=0) if l != "refenum"]) for i in range(max(60, nsim // 10))]
     sim_scen += [(f"rg{i}", with_rand(sim_suite.gen_scenario(rng, dict(procs=(2, 4), p_rand=0.3, p_crash=0.3)))) for i in range(max(30, nsim // 10))]
     nviol = 0
     nontriv = set()
